@@ -168,9 +168,12 @@ func genScenario(t *rapid.T) Scenario {
 		if pick(t, "bigblock", 12) == 0 {
 			// a large block (execution layers stage and flush in chunks): hundreds of valid transactions
 			// and, in half of the cases, a malformed / reserved one late in the block
-			nbig := []int{33, 130, 257, 300, 600, 1100}[pick(t, "nbig", 6)]
+			nbig := []int{33, 130, 257, 300, 600, 1100, 2300}[pick(t, "nbig", 7)]
+			// keys that sort before or after the executor's own records (a scan in key order meets those in the
+			// middle of a large state, or at its end)
+			prefix := []string{"big", "zbig", "h"}[pick(t, "bigprefix", 3)]
 			for j := 0; j < nbig; j++ {
-				b.Txs = append(b.Txs, []byte(fmt.Sprintf("big%d/k%04d=v%d", i, j, j)))
+				b.Txs = append(b.Txs, []byte(fmt.Sprintf("%s%d/k%04d=v%d", prefix, i, j, j)))
 			}
 			if rapid.Bool().Draw(t, "bigbad") {
 				pos := nbig - 1 - pick(t, "badfromend", 40)
